@@ -146,6 +146,19 @@ class Runner:
                     raise
                 self.save_violation()
                 done += self.rec.evaluations - start
+            except Exception as e:
+                # Hypothesis reports 'flaky' when a case that violated the property passes on re-execution. The
+                # violation was nevertheless observed on real outputs; the usual cause is state that the code under
+                # test keeps between calls (a cache, a mutated default), which is itself what several properties
+                # forbid. It is reported, with a note that the replay may need the preceding cases to reproduce.
+                if type(e).__name__ in ('Flaky', 'FlakyFailure', 'FlakyReplay') and self.rec.last_fail is not None:
+                    sig, msg, case = self.rec.last_fail
+                    self.rec.last_fail = (sig, msg + ' [observed once, not reproduced when the case was re-run alone: '
+                                          'depends on state left behind by earlier calls]', case)
+                    self.save_violation()
+                    done += self.rec.evaluations - start
+                else:
+                    raise
 
 
 class CaseTimeout(BaseException):
